@@ -85,6 +85,7 @@ class Module:
             known = alpha.baseline().get("__functions__")
             if known:
                 self.inlined = normalise.inline_new_helpers(name, self.tree, set(known))
+            normalise.fold_kwargs_dicts(self.tree)
             ast.fix_missing_locations(self.tree)
         self.link_parents(self.tree)
 
